@@ -51,8 +51,12 @@ func runC15(c *Ctx) {
 	checkReorgDisconnectHashes(c, "C15-R2")
 	checkRescanFinishedCatchesUpToBackendTip(c, "C15-R2")
 	checkReorgListBuiltInOneDirection(c, "C15-R2")
+	checkFilteredBlocksAlwaysAnnounced(c, "C15-R2")
 	// the wallet can follow the backend only if the notifications reach it in the order they were produced
 	c.Borrow(runC18, "C18-R1", "C15-R2", func(k string) bool { return strings.HasPrefix(k, "direct-handoff-only-when-overflow-empty") })
+	// the two stores move together during recovery too: a batch's stamps and the transactions found in it are written in
+	// one database transaction
+	c.Borrow(runC16, "C16-R5", "C15-R1", func(k string) bool { return strings.HasPrefix(k, "batch-stamps-in-same-update-after-recovery") })
 
 	// ---------- R2 stamp completeness at every SetSyncedTo site ----------
 	nSites := 0
@@ -199,8 +203,16 @@ func runC15(c *Ctx) {
 			}
 		}
 		c.Floor("C15-R3", "'birthday block set' branch in PutSyncedTo", n, 1)
+		isPredLookup := func(call *ssa.Call) bool {
+			l := p.linearize(call.Call.Args[1], 0)
+			return l.Konst == -1 && len(l.Coef) == 1 && l.Coef["field:Height"] == 1
+		}
 		for _, call := range callsNamed(ps, "fetchBlockHash") {
-			// its error edge returns an error
+			// the predecessor lookup (height-1): its error edge returns an error. Lookups of other heights (the sweep of
+			// stale entries above the stamp) are not predecessor checks
+			if !isPredLookup(call) {
+				continue
+			}
 			for _, b := range ps.Blocks {
 				for si := range b.Succs {
 					f := edgeFactOf(b, si)
@@ -233,12 +245,113 @@ func runC15(c *Ctx) {
 			_, f, _, okf := fieldOf(call.Call.Args[2])
 			c.Check("C15-R3", "hash-index-keyed-by-stamp", call.Pos(), okA && okf && f == "Hash", "the recent-hash index entry is not (stamp.Height -> stamp.Hash)")
 		}
+		// the sweep above the stamp: a counter that starts at stamp.Height+1 and steps by one
+		sweepCounter := func(v ssa.Value) (*ssa.Phi, bool) {
+			ph, ok := stripConv(v).(*ssa.Phi)
+			if !ok {
+				return nil, false
+			}
+			init, step := false, false
+			for _, e := range ph.Edges {
+				if p.linearize(e, 0).String() == "+1*field:Height +1" {
+					init = true
+				}
+				if bo, ok := stripConv(e).(*ssa.BinOp); ok && bo.Op == token.ADD && stripConv(bo.X) == ssa.Value(ph) {
+					if k, isK := constInt(bo.Y); isK && k == 1 {
+						step = true
+					}
+				}
+			}
+			return ph, init && step
+		}
+		nStale := 0
 		for _, call := range callsNamed(ps, "deleteBlockHash") {
+			if _, isSweep := sweepCounter(call.Call.Args[1]); isSweep {
+				continue
+			}
+			nStale++
 			okS := false
 			if sc, ok := call.Call.Args[1].(*ssa.Call); ok && calleeShort(&sc.Call) == "staleHeight" {
 				okS = p.linearize(sc.Call.Args[0], 0).String() == "+1*field:Height +0"
 			}
-			c.Check("C15-R3", "prunes-stale-height", call.Pos(), okS, "the pruned hash-index entry is not staleHeight(stamp.Height)")
+			c.Check("C15-R3", "prunes-stale-height", call.Pos(), okS, "the pruned hash-index entry is neither staleHeight(stamp.Height) nor an entry above the stamp")
+		}
+		c.Floor("C15-R3", "stale-height prunings in PutSyncedTo", nStale, 1)
+		// no hash stays recorded above the stamp: moving the sync point DOWN (a rollback) must take the hashes of the rolled
+		// back blocks with it. The writer only tests that SOME hash exists at height-1, so a left-over entry lets a later
+		// block be stamped on top of a block of the old chain, and the entries in between are never corrected. Every
+		// successful PutSyncedTo passes a loop that deletes the entries from stamp.Height+1 upwards and is left only when
+		// the lookup at the counter finds nothing (or with an error).
+		{
+			okSweep := false
+			detail := "PutSyncedTo has no loop deleting the hash entries from stamp.Height+1 upwards: after the sync point was moved down, the hashes of the rolled back blocks stay recorded, a block notified for a later height passes the predecessor check on top of a stale hash, and the heights in between keep the old chain's hashes"
+			for _, l := range loopsOf(ps) {
+				var ctr *ssa.Phi
+				for _, ins := range l.Header.Instrs {
+					if v, isV := ins.(ssa.Value); isV {
+						if ph, ok := sweepCounter(v); ok {
+							ctr = ph
+						}
+					}
+				}
+				if ctr == nil {
+					continue
+				}
+				deletes, lookup := 0, (*ssa.Call)(nil)
+				for b := range l.Blocks {
+					for _, ins := range b.Instrs {
+						call, ok := ins.(*ssa.Call)
+						if !ok || len(call.Call.Args) < 2 || stripConv(call.Call.Args[1]) != ssa.Value(ctr) {
+							continue
+						}
+						switch calleeShort(&call.Call) {
+						case "deleteBlockHash":
+							deletes++
+						case "fetchBlockHash":
+							lookup = call
+						}
+					}
+				}
+				if deletes == 0 || lookup == nil {
+					continue
+				}
+				// left only over the lookup's not-found edge, or towards an error return
+				okExits := true
+				for b := range l.Blocks {
+					for si, succ := range b.Succs {
+						if l.Blocks[succ] {
+							continue
+						}
+						if f := edgeFactOf(b, si); f != nil && f.Kind == "nonnil" {
+							if ex, ok := f.V.(*ssa.Extract); ok && ex.Tuple == ssa.Value(lookup) {
+								continue
+							}
+						}
+						q := &PathQuery{Fn: ps, Target: p.nonErrorReturn()}
+						if len(exploreFromBlock(q, succ, b)) > 0 {
+							okExits = false
+							detail = "the sweep of hash entries above the stamp can be left at " + p.Pos(lastPos(b)) + " before it found the first missing height: entries of rolled back blocks above that point stay recorded"
+						}
+					}
+				}
+				// each iteration deletes the entry it found
+				if bad := l.MustPassPerIteration(p, func(ins ssa.Instruction) bool {
+					call, ok := ins.(*ssa.Call)
+					return ok && calleeShort(&call.Call) == "deleteBlockHash"
+				}); bad != "" {
+					okExits = false
+					detail = "an iteration of the sweep above the stamp can skip the deletion (" + bad + ")"
+				}
+				hdr := l.Header
+				if bad := p.mustPassToSuccess(ps, nil, func(ins ssa.Instruction) bool { return ins.Block() == hdr }, nil); bad != nil {
+					okExits = false
+					detail = "PutSyncedTo can succeed at " + p.Pos(bad.Pos()) + " without sweeping the hash entries above the stamp"
+				}
+				if okExits {
+					okSweep = true
+				}
+			}
+			c.Check("C15-R3", "no-hash-left-above-stamp", ps.Pos(), okSweep, detail)
 		}
 		if sh := p.Func("waddrmgr", "", "staleHeight"); sh != nil {
 			depth, _ := constInPkg(p, "waddrmgr", "MaxReorgDepth")
@@ -671,6 +784,44 @@ func checkCoupledRollback(c *Ctx, rule string) {
 		}
 	}
 	c.Floor(rule, "coupled stamp+rollback sites", nCoupled, 2)
+	// re-basing the sync point: a function that hands the SAME block stamp to SetBirthdayBlock and to SetSyncedTo moves
+	// the synced-to stamp to wherever the new birthday block is — possibly far below the recorded transactions — and
+	// must roll the transaction store back to that point in the same database transaction
+	setBday := p.Func("waddrmgr", "Manager", "SetBirthdayBlock")
+	nRebase := 0
+	for _, fn := range p.FuncsIn("wallet") {
+		for _, ci := range callsOf(fn) {
+			s, ok := ci.(*ssa.Call)
+			if !ok || !isSet(s) || setBday == nil {
+				continue
+			}
+			same := false
+			stampRoot := func(v ssa.Value) ssa.Value {
+				v = stripConv(v)
+				if u, ok := v.(*ssa.UnOp); ok && u.Op == token.MUL {
+					return u.X
+				}
+				return v
+			}
+			for _, c2 := range callsOf(fn) {
+				b, ok := c2.(*ssa.Call)
+				if !ok || !p.isCallTo(b, setBday) || len(b.Call.Args) < 3 || len(s.Call.Args) < 3 {
+					continue
+				}
+				if stampRoot(b.Call.Args[2]) == stampRoot(s.Call.Args[2]) {
+					same = true
+				}
+			}
+			if !same {
+				continue
+			}
+			nRebase++
+			bad := p.mustPassToSuccess(fn, s, isRb, nil)
+			c.Check(rule, "sync-point-rebase-rolls-store-back:"+fnName(fn), s.Pos(), bad == nil,
+				fnName(fn)+" rewinds the synced-to stamp to a relocated birthday block without rolling the transaction store back to it: the start-up reorg check starts at that block, so transactions recorded above it in blocks that were reorged out meanwhile stay confirmed in stale blocks")
+		}
+	}
+	c.Floor(rule, "sync-point re-basing sites", nRebase, 1)
 
 }
 
@@ -843,4 +994,43 @@ func checkReorgListBuiltInOneDirection(c *Ctx, rule string) {
 	}
 	c.Floor(rule, "block lists built by reorg", n, 1)
 	_ = p
+}
+
+// checkFilteredBlocksAlwaysAnnounced: the bitcoind client announces a connected block to the wallet from the function
+// that filters it; the wallet accepts a block only on top of the previous one, so a block that is filtered without
+// being announced (too old to be interesting, nothing to watch...) stalls the wallet behind the backend for good. When
+// asked to notify, every path of the block filter reaches the block-connected notification.
+func checkFilteredBlocksAlwaysAnnounced(c *Ctx, rule string) {
+	p := c.P
+	fb := p.Func("chain", "BitcoindClient", "filterBlock")
+	if fb == nil {
+		c.Unresolved(rule, "chain.BitcoindClient.filterBlock")
+		return
+	}
+	var notify *ssa.Parameter
+	for _, prm := range fb.Params {
+		if isBoolType(prm.Type()) {
+			notify = prm
+		}
+	}
+	if notify == nil {
+		c.Check(rule, "filtered-block-always-announced", fb.Pos(), false, "filterBlock has no notify flag (undecided)")
+		return
+	}
+	announce := viaHelpers("onBlockConnected", isCallNamed("onBlockConnected"), true)
+	q := &PathQuery{Fn: fb, Barrier: announce}
+	q.EdgeBarrier = func(from *ssa.BasicBlock, si int) bool {
+		if len(from.Instrs) == 0 {
+			return false
+		}
+		iff, ok := from.Instrs[len(from.Instrs)-1].(*ssa.If)
+		return ok && stripConv(iff.Cond) == ssa.Value(notify) && si == 1
+	}
+	q.Target = func(ins ssa.Instruction, _ *ssa.BasicBlock) bool { _, isRet := ins.(*ssa.Return); return isRet }
+	hits := q.From(nil)
+	detail := ""
+	if len(hits) > 0 {
+		detail = "filterBlock, asked to notify, can return at " + p.Pos(hits[0].Ins.Pos()) + " without announcing the block: the wallet never sees it, refuses every later block (its predecessor is unknown) and stays behind the backend's tip"
+	}
+	c.Check(rule, "filtered-block-always-announced", fb.Pos(), len(hits) == 0, detail)
 }
